@@ -53,7 +53,7 @@ INVALID = {
     'SimulatedBroker.submit_order': [
         ('order for unknown portfolio', dict(member={('portfolio_id', 'self.portfolios'): False}), 'KeyError')],
     'SimulatedBroker.__init__': [
-        ('unsupported currency', dict(member={('base_currency', "settings.SUPPORTED['CURRENCIES']"): False}, order={('initial_funds', '0'): '>'}), 'ValueError'),
+        ('unsupported currency', dict(member={('base_currency', "settings.SUPPORTED['CURRENCIES']"): False}, order={('initial_funds', '0'): '>'}, strs={'base_currency': 'XXX'}), 'ValueError'),
         ('negative initial funds', dict(member={('base_currency', "settings.SUPPORTED['CURRENCIES']"): True}, order={('initial_funds', '0'): '<'}), 'ValueError')],
     'Portfolio.subscribe_funds': [
         ('timestamp earlier than the clock', dict(order={('dt', 'self.current_dt'): '<', ('amount', '0'): '>'}), 'ValueError'),
